@@ -3,6 +3,7 @@ package gvc
 import (
 	"fmt"
 	"go/ast"
+	"os"
 	"go/token"
 	"go/types"
 
@@ -11,11 +12,32 @@ import (
 
 // step executes one non-control instruction. Returns false if the path ends.
 func (x *Exec) step(st *State, fr *Frame, ins ssa.Instruction) bool {
+	if v, ok := ins.(ssa.Value); ok {
+		if fr.stamps == nil {
+			fr.stamps = map[ssa.Value]int{}
+		}
+		fr.nstamp++
+		fr.stamps[v] = fr.nstamp
+	}
 	switch in := ins.(type) {
 	case *ssa.DebugRef:
 		name := debugName(in)
 		if name != "" {
+			if _, isConst := in.X.(*ssa.Const); isConst && !in.IsAddr {
+				// go/ssa emits a debug reference with the zero value where a local is declared,
+				// before its initialiser is assigned: that is not the variable's value. The value is
+				// recovered from the latest executed definition among the variable's other references.
+				if v, ok := x.latestDefinition(fr, name); ok {
+					fr.names[name] = nameBinding{v: v}
+				} else {
+					delete(fr.names, name)
+				}
+				break
+			}
 			fr.names[name] = nameBinding{v: x.val(st, fr, in.X), isAddr: in.IsAddr}
+			if os.Getenv("GVC_TRACE_IDENT") == name {
+				fmt.Fprintf(os.Stderr, "bind %s := %s (%s) block=%d\n", name, fr.names[name].v.T.S, in.X.Name(), fr.block.Index)
+			}
 		}
 	case *ssa.Alloc:
 		pt := in.Type().Underlying().(*types.Pointer).Elem()
@@ -814,4 +836,29 @@ func (x *Exec) rangeNext(st *State, fr *Frame, in *ssa.Next) Val {
 	}
 	x.Abstracted["map/string range: arbitrary element each iteration (visited-set not tracked)"]++
 	return Val{T: Term{"unit", SUnit}, Typ: in.Type(), Tup: vals}
+}
+
+// latestDefinition: among the debug references of the local `name` (other than zero-value
+// declarations), the referenced SSA value that was computed most recently on this path.
+func (x *Exec) latestDefinition(fr *Frame, name string) (Val, bool) {
+	best, bestStamp := Val{}, -1
+	for _, b := range fr.fn.Blocks {
+		for _, in := range b.Instrs {
+			d, ok := in.(*ssa.DebugRef)
+			if !ok || d.IsAddr || debugName(d) != name {
+				continue
+			}
+			if _, isConst := d.X.(*ssa.Const); isConst {
+				continue
+			}
+			v, ok := fr.env[d.X]
+			if !ok {
+				continue
+			}
+			if s := fr.stamps[d.X]; s > bestStamp {
+				best, bestStamp = v, s
+			}
+		}
+	}
+	return best, bestStamp >= 0
 }
